@@ -121,11 +121,8 @@ pub fn check_doc(ctx: &mut Ctx, b: &[u8], heavy: bool) {
         };
         for (raw, m, name) in [(false, mode, "embedded-vec"), (true, NumMode::Raw, "embedded-vec-rawnumber")] {
             ctx.ops(1);
-            let got = parse_then_discard(&w, |c| {
-                let de = Deserializer::from_slice(c);
-                let mut de = if raw { de.use_rawnumber() } else { de };
-                de.deserialize::<Vec<Value>>()
-            });
+            // (`from_slice` is the entry point that honours the arbitrary_precision feature)
+            let got = parse_then_discard(&w, |c| if raw { Deserializer::from_slice(c).use_rawnumber().deserialize::<Vec<Value>>() } else { sonic_rs::from_slice::<Vec<Value>>(c) });
             match got {
                 Ok(vs) => {
                     if vs.len() != 3 {
